@@ -1244,3 +1244,90 @@ class JsonRec(Contract):
         if len(args) != 1 or not isinstance(args[0], SymTree):
             raise CheckerError('rec called with something that is not a tree view')
         return JsonTerm(enc_json(I)(args[0].e))
+
+
+# ---------------------------------------------------------------------------- xml_of: numbering of the ccg elements (C07)
+NTREES = z3.Function('nbest_len', I_, I_)             # number of trees of sentence s
+TREE_AT = z3.Function('nbest_tree', I_, I_, T)        # the j-th tree of sentence s
+
+
+class SymNbest:
+    """nbest_trees: a list of lists of (tree, score); iterated by the arbitrary-iteration rule (one sentence, one tree)"""
+    def __init__(self, ns):
+        self.ns = ns
+
+    def enumerate(self, I, start, node):
+        return _EnumLoop(lambda i: SymNbestOf(i), self.ns, start, 'sentence')
+
+
+class SymNbestOf:
+    def __init__(self, s):
+        self.s = s
+
+    def enumerate(self, I, start, node):
+        s = self.s
+        return _EnumLoop(lambda j: (SymTree(TREE_AT(s, j)), Z(z3.Real('score'))), NTREES(s), start, 'tree')
+
+
+class _EnumLoop:
+    """for index, x in enumerate(xs, start): one ARBITRARY position p (0 <= p < len); index = start + p.  Iterations run in order (contract of for / enumerate):
+    what the body appends to a list lands in the order of the positions"""
+    def __init__(self, elem, n, start, what):
+        self.elem, self.n, self.start, self.what = elem, n, start, what
+
+    def for_loop(self, I, st, env, module, qual):
+        if st.orelse:
+            raise CheckerError('for/else')
+        p = I.fresh(self.what + '_position', I_)
+        I.ctx.assume(z3.And(p >= 0, p < self.n))
+        I.ctx.positions = dict(getattr(I.ctx, 'positions', {}))
+        I.ctx.positions[self.what] = p
+        I.assign(st.target, (Z(self.start + p) if not isinstance(self.start, int) or True else None, self.elem(p)), env, module)
+        I.exec_block(st.body, env, module, qual)
+
+
+class XmlOf(Contract):
+    rel, qualname = XREL, 'xml_of'
+
+    def cases(self, I):
+        def build(I):
+            ns = z3.Int('n_sentences')
+            self._root = None
+            orig = I.modules['lxml.etree'].Element
+
+            def element(I_, args, kwargs, node):
+                e = SymElem(args[0])
+                if args[0] == 'candc':
+                    self._root = e
+                return e
+            self._orig = orig
+            I.modules['lxml.etree'].Element = _Method(element)
+            return [SymNbest(ns)], {}, [ns >= 1], None
+        yield Case('any-batch', build)
+
+    def post(self, I, case, args, result):
+        I.modules['lxml.etree'].Element = self._orig
+        root = self._root
+        pos = getattr(I.ctx, 'positions', {})
+        if root is None or result is not root or 'sentence' not in pos or 'tree' not in pos or len(root.kids) != 1 or not isinstance(root.kids[0], SymElem):
+            return [('shape', z3.BoolVal(False))]
+        s, j = pos['sentence'], pos['tree']
+        out = root.kids[0]
+        a = out.attrs
+        ok = set(a) == {'sentence', 'id'} and hasattr(a['sentence'], 'z') and hasattr(a['id'], 'z') and out.tagname == 'ccg' and len(out.kids) == 1
+        if not ok:
+            return [('shape', z3.BoolVal(False))]
+        # the ccg element appended for the arbitrary (sentence s, tree j): numbered s + 1 / j + 1 and holding the encoding of exactly that tree
+        return [('shape', z3.BoolVal(True)), ('numbering', z3.And(a['sentence'].z.e == s + 1, a['id'].z.e == j + 1)),
+                ('content', out.kids[0] == enc_xml(I)(TREE_AT(s, j), 0) if z3.is_expr(out.kids[0]) else z3.BoolVal(False))]
+
+
+class XmlProcessTreeAt(XmlProcessTree):
+    """_process_tree at a call site: its proved contract (a <ccg> element with one child, the encoding of the tree with offsets from 0)"""
+    def apply(self, I, args, kwargs, node):
+        t = args[0]
+        if not isinstance(t, SymTree):
+            raise CheckerError('_process_tree called with something that is not a tree view')
+        e = SymElem('ccg')
+        e.kids.append(enc_xml(I)(t.e, 0))
+        return e
